@@ -296,6 +296,78 @@ void h_free(void *p, const char *fn, int line) {
     free(p);
 }
 
+/* ------------------------------------------------------------ lock-order recording (C17) */
+#define MAXHELD 32
+static __thread struct {
+    pthread_mutex_t *m;
+    const char *expr, *fn;
+} held[MAXHELD];
+static __thread int nheld;
+static pthread_mutex_t edgemu = PTHREAD_MUTEX_INITIALIZER;
+static char **edges;
+static int nedges, edgecap;
+static void edge_add(const char *he, const char *hf, int same, const char *ae, const char *af) {
+    char tmp[512];
+    /* function-local static locks are all spelled `lock`: qualify them by function */
+    int hl = !strcmp(he, "&lock") || !strcmp(he, "lock"), al = !strcmp(ae, "&lock") || !strcmp(ae, "lock");
+    snprintf(tmp, sizeof(tmp), "%s%s%s>%s%s%s%s", he, hl ? "@" : "", hl ? hf : "", ae, al ? "@" : "", al ? af : "", same ? "!same" : "");
+    for (char *q = tmp; *q; q++)
+        if (*q == ' ')
+            *q = '_';
+    pthread_mutex_lock(&edgemu);
+    for (int i = 0; i < nedges; i++)
+        if (!strcmp(edges[i], tmp)) {
+            pthread_mutex_unlock(&edgemu);
+            return;
+        }
+    if (nedges == edgecap) {
+        edgecap = edgecap * 2 + 64;
+        edges = realloc(edges, edgecap * sizeof(*edges));
+    }
+    edges[nedges++] = strdup(tmp);
+    pthread_mutex_unlock(&edgemu);
+}
+int h_mutex_lock(pthread_mutex_t *m, const char *expr, const char *fn) {
+    for (int i = 0; i < nheld; i++)
+        edge_add(held[i].expr, held[i].fn, held[i].m == m, expr, fn);
+    int r = pthread_mutex_lock(m);
+    if (nheld < MAXHELD) {
+        held[nheld].m = m;
+        held[nheld].expr = expr;
+        held[nheld].fn = fn;
+        nheld++;
+    }
+    return r;
+}
+int h_mutex_unlock(pthread_mutex_t *m, const char *expr, const char *fn) {
+    (void)expr;
+    (void)fn;
+    for (int i = nheld - 1; i >= 0; i--)
+        if (held[i].m == m) {
+            for (int j = i; j + 1 < nheld; j++)
+                held[j] = held[j + 1];
+            nheld--;
+            break;
+        }
+    return pthread_mutex_unlock(m);
+}
+static int edgecmp(const void *a, const void *b) { return strcmp(*(char *const *)a, *(char *const *)b); }
+/* the set of (held > acquired) pairs seen so far, sorted */
+void h_lock_edges(FILE *out) {
+    pthread_mutex_lock(&edgemu);
+    qsort(edges, nedges, sizeof(*edges), edgecmp);
+    for (int i = 0; i < nedges; i++)
+        fprintf(out, " %s", edges[i]);
+    pthread_mutex_unlock(&edgemu);
+}
+void h_lock_reset(void) {
+    pthread_mutex_lock(&edgemu);
+    for (int i = 0; i < nedges; i++)
+        free(edges[i]);
+    nedges = 0;
+    pthread_mutex_unlock(&edgemu);
+}
+
 /* ------------------------------------------------------------ writer threads */
 enum { W_RUNNING, W_PARKED, W_SLEEPING, W_DONE };
 struct hthread {
